@@ -24,10 +24,10 @@ from lib.common import Broken, log
 
 LEVEL = "model_checking"
 ALL_DEVS = ["set-duplicates-existing-key", "set-existing-at-max-not-updated"]
-INVS = ("AllValid AtMost32 NoDuplicate SetPutsFirstKeepsRestOnce RefusedAtMax DeleteExact InvalidYieldsEmpty "
+INVS = ("AllValid AtMost32 NoDuplicate SetPutsFirstKeepsRestOnce SameValueStillMoves RefusedAtMax DeleteExact InvalidYieldsEmpty "
         "GetIsLatest GetMatchesLast HeaderRoundTrip")
 INVS_DEV = "AllValid AtMost32 OnlyThroughDev RefusedAtMax DeleteExact InvalidYieldsEmpty GetMatchesLast"
-ACTIONS = ["ASetExisting", "ASetNew", "ASetBadKey", "ASetBadVal", "ADelete", "ADeleteAbsent", "ADeleteBad",
+ACTIONS = ["ASetExisting", "ASetSame", "ASetNew", "ASetBadKey", "ASetBadVal", "ADelete", "ADeleteAbsent", "ADeleteBad",
            "AGetPresent", "AGetAbsent", "AGetBad", "ARoundTrip"]
 WITNESSES = [("WitRefused", "{32}", 1), ("WitExistAtMax", "{32}", 1), ("WitExistBelow", "{31}", 1),
              ("WitGrowRefuse", "{31}", 2), ("WitGrowUpdate", "{31}", 2), ("WitDelAtMaxGrow", "{32}", 2),
@@ -133,7 +133,8 @@ def generate(ctx):
                 for f in st.get("fl", []):
                     flagcov[f] = flagcov.get(f, 0) + 1
     ctx.extra["rare_situations_in_depth2_behaviours"] = flagcov
-    for f in ("refused", "exist_at_max", "exist_below_max", "grow_to_max", "del_at_max", "invalid_on_nonempty"):
+    for f in ("refused", "exist_at_max", "exist_below_max", "grow_to_max", "del_at_max", "invalid_on_nonempty",
+              "same_value_moved", "same_value_moved_at_max"):
         if not flagcov.get(f):
             raise Broken("vacuity: situation %s never occurs in the exhaustive depth-2 behaviours" % f)
     if thorough:
